@@ -175,6 +175,9 @@ pub fn run(ctx: &Ctx) -> Report {
         "same_instant_seen_from_two_zones_compares_equal",
         "timestamp_constructor_offset_full_i32_range",
         "total_nanoseconds_constructors",
+        "search_entry_valid",
+        "search_entry_gap",
+        "search_on_zone_with_leap_seconds",
     ];
     if let Err(e) = crate::mon::c03::self_tests() {
         rep.inconclusive.push(format!("model self-test failed: {}", e));
@@ -269,5 +272,46 @@ pub fn run(ctx: &Ctx) -> Report {
     });
     // wl 4: zones, projection, comparison claims
     run_cases(ctx, &mut rep, 4, ctx.n(10_000, 400_000), |l, rng, _| zone_workload(l, rng, ctx));
+    // wl 5: every entry returned by the local-time search (valid and gap entries, allocating and buffer-based),
+    // on zones of every shape incl. leap seconds: the facade applies the field invariant to each of them
+    let cfg = ZoneCfg::search();
+    run_cases(ctx, &mut rep, 5, ctx.n(10_000, 400_000), |l, rng, _| {
+        let z = gen_zone(rng, &cfg);
+        let b = match build(&z) {
+            Ok(b) => b,
+            Err(_) => return,
+        };
+        let tz = b.tz.as_ref();
+        let mut locals = crate::gen::zone::probe_locals(&z, rng, 6, 4);
+        locals.truncate(ctx.inner(40) as usize);
+        let mut n = 0;
+        for (i, &c) in locals.iter().enumerate() {
+            let q = crate::mon::c05::Search::from_civil_seconds(c, (i as u32 * 7919) % 1_000_000_000, i % 7 == 3);
+            if let Ok(list) = facade::find(q.y, q.mo, q.d, q.h, q.mi, q.s, q.ns, tz) {
+                for k in list.into_inner() {
+                    match k {
+                        tz::datetime::FoundDateTimeKind::Normal(d) => {
+                            l.class("search_entry_valid");
+                            // same fields + same type through the field constructor: same instant
+                            if let Ok(built) = facade::dt_new(d.year(), d.month(), d.month_day(), d.hour(), d.minute(), d.second(), d.nanoseconds(), *d.local_time_type()) {
+                                if built.unix_time() != d.unix_time() {
+                                    l.violation("zoned date-time: a search result and DateTime::new of the same fields and type denote different instants", format!("DateTime::find({}) on {}", q.describe(), z.describe()), facade::fmt_dt(&built), facade::fmt_dt(&d));
+                                }
+                            }
+                        }
+                        tz::datetime::FoundDateTimeKind::Skipped { .. } => l.class("search_entry_gap"),
+                    }
+                }
+            }
+            let mut buf = [None; 3];
+            let _ = facade::find_n(&mut buf, q.y, q.mo, q.d, q.h, q.mi, q.s, q.ns, tz);
+            n += 2;
+        }
+        if !z.leaps.is_empty() {
+            l.class("search_on_zone_with_leap_seconds");
+        }
+        l.op_n("DateTime::find / find_n entries", n);
+        l.distinct_hash(Fnv::new().b(z.describe().as_bytes()).get());
+    });
     rep
 }
